@@ -214,6 +214,25 @@ def run_noop(case):
     after = canon.dumps(bu.ir, skip_tables={"leafFunctions"})
     if bu.ir.cfg is not cfg_obj:
         viol.append({"key": "noop:cfg-object-replaced", "msg": ""})
+    if before != after and any(iv.get("uninit") for sec in case["secs"]
+                               for iv in sec["ivs"]):
+        # uninitialised bytes that blocks cover, with further (wholly
+        # uninitialised) blocks behind them: re-joining the pieces spells
+        # the zeros out.  The image must be the same.
+        import json
+
+        def image(dump):
+            d_ = json.loads(dump)
+            for md in d_["modules"]:
+                for sec in md["sections"]:
+                    for iv in sec["intervals"]:
+                        iv["contents"] = iv["contents"].ljust(
+                            2 * iv["size"], "0")
+                        iv["init"] = None
+            return json.dumps(d_, sort_keys=True)
+        if image(before) == image(after):
+            ctr["noop_uninitialised_bytes_spelled_out"] = 1
+            after = before
     if before != after:
         import json
         d = canon.diff_keys(json.loads(before), json.loads(after))
